@@ -570,6 +570,11 @@ class Epoch(object):
         True
         """
 
+        if not (isinstance(year, (int, float))
+                and isinstance(month, (int, float))
+                and isinstance(day, (int, float))):
+            raise TypeError("Invalid input type")
+
         if (
             (year < 1582)
             or (year == 1582 and month < 10)
@@ -1496,6 +1501,10 @@ class Epoch(object):
         >>> round(Epoch.tt2ut(2015, 7), 1)
         69.3
         """
+
+        if not (isinstance(year, (int, float))
+                and isinstance(month, (int, float))):
+            raise TypeError("Invalid input type")
 
         y = year + (month - 0.5) / 12.0
         if year < -500:
